@@ -52,6 +52,31 @@ CHECKS.update({
             'the recording bus in every state and every emission is marshalled against its declared signature.', '6 C18'),
 })
 
+CHECKS.update({
+    'C03': ('fault_enumeration', 'exhaustive single-bit and field-level fault enumeration judged by an independent covered-tuple (AAD) model',
+            'Every single-bit flip of integrity-protected bundles (real transmit chain for COSE_Mac0 / COSE_Sign1, independent '
+            'HMAC producer for other AAD scopes) plus field edits is fed to a verifier agent; the independent model says '
+            'whether what the block covers changed.', '6 C03'),
+    'C05': ('exploration', 'bounded-exhaustive (payload length, MTU) grid on the real send path, decoded independently',
+            'Grid across the CBOR head boundaries x CRC x extension sets x origin x flags x integrity policy; all octets '
+            'reaching the convergence layer for one send request are judged by a tiling model.', '6 C05'),
+    'C06': ('model_checking', 'explicit-state search over fragment arrival histories (replay on fresh real agents)',
+            'Every arrival history up to the depth bound over mixed fragmentations, duplicates, the whole bundle and '
+            'look-alike bundles with idle callbacks interleaved; reference coverage is a set of integers.', '6 C06'),
+    'C10': ('model_checking', 'explicit-state search over receive histories x routing tables (replay on fresh real agents)',
+            'All receive histories up to the depth bound over ten bundles x five routing tables, idle callbacks '
+            'interleaved; a reference router with identity memory predicts deliveries and transmissions.', '6 C10'),
+    'C12': ('fault_enumeration', 'enumeration of a security-block malformation menu x key stores x acceptance x reporting',
+            'Each malformation of BIB/BCB structure or content is applied to a valid bundle and fed to a fresh agent; a '
+            'probe application behind the security steps must not see it and the deletion reason must be a security one.', '6 C12'),
+    'C16': ('fault_enumeration', 'plaintext-length x mode enumeration with exhaustive bit-flip fault injection',
+            'Wire octets are searched for the plaintext, exact recovery is required with the key, failure without it, and '
+            'every single-bit flip is judged by the independent covered-tuple model.', '6 C16'),
+    'C19': ('exploration', 'complete decision-table enumeration against a reference report generator',
+            'All 32 request-flag combinations x report-to x 8 outcomes on a fresh real agent; every administrative record '
+            'reaching the convergence layer is decoded independently.', '6 C19'),
+})
+
 NOT_YET = {
 }
 
